@@ -90,6 +90,8 @@ def check_backend_interpreted(run, f, cfg, short, esc, une, why):
         alphabet = E.alphabet(extra=S.literal_chars(f, une))
         m, problems = E.per_char(alphabet)
     except Anchor as e2:
+        from .. import scope
+        scope.check_bound(run, "C17.R1", "%s:scope" % short, f, [esc, une], 3, cfg, "%s escape / unescape (neither extractable nor interpretable)" % short)
         run.anchor("C17.R1", "%s:escape" % short, "%s; %s" % (why, e2), cfg)
         return
     run.notes.append("%s: escape/unescape pair decided by interpretation of the bodies (%s)" % (short, why))
@@ -122,6 +124,8 @@ def check_backend_interpreted(run, f, cfg, short, esc, une, why):
                    short, len(alphabet), hot, "" if not bad else " - EXCEPT %r" % bad[:5]),
                sp=f.fns[une]["sp"], cfg=cfg)
     except Anchor as e3:
+        from .. import scope
+        scope.check_bound(run, "C17.R2", "%s:unescape:scope" % short, f, [une], 3, cfg, "%s unescape (outside the interpreter's fragment)" % short)
         run.anchor("C17.R2", "%s:unescape" % short, str(e3), cfg)
 
 
